@@ -60,6 +60,12 @@ fn decoded(input: &[u8]) -> Value {
                 Some(e) => (Value::String(hex(&cbor_bytes(e))), has_float(e)),
             };
             let same = re == input;
+            // to_vec() of the result is a strict prefix of the input (trailing bytes were ignored)
+            let re_prefix = if !same && re.len() < input.len() && input[..re.len()] == re[..] {
+                Some(re.len())
+            } else {
+                None
+            };
             json!({
                 "ok": true,
                 "hash": hex(ad.rp_id_hash()),
@@ -69,6 +75,7 @@ fn decoded(input: &[u8]) -> Value {
                 "ext": ext,
                 "ext_float": ext_float,
                 "same": same,
+                "re_prefix": re_prefix,
             })
         }
     }
@@ -163,6 +170,19 @@ fn run_case(case: &Value) -> Value {
                 .map(|f| {
                     let mut v = input.clone();
                     v[f[0].as_u64().unwrap() as usize] = f[1].as_u64().unwrap() as u8;
+                    pkharness::guarded(move || decoded(&v))
+                })
+                .collect();
+            json!({"outs": outs})
+        }
+        // {"op":"sweep","input":hex,"pos":usize}: byte `pos` set to every value 0..=255
+        "sweep" => {
+            let input = get_hex(case, "input");
+            let pos = case["pos"].as_u64().unwrap() as usize;
+            let outs: Vec<Value> = (0..=255u8)
+                .map(|x| {
+                    let mut v = input.clone();
+                    v[pos] = x;
                     pkharness::guarded(move || decoded(&v))
                 })
                 .collect();
